@@ -71,6 +71,8 @@ pub struct RunOut {
     pub signature: u64,
     pub runnable_left: usize,
     pub armed_left: usize,
+    /// violations established while the run proceeded (codec-level families)
+    pub pre_violations: Vec<crate::oracle::Violation>,
 }
 
 thread_local! {
@@ -154,6 +156,36 @@ fn run_in_thread(family: Family, mode: Mode) -> RunOut {
         Mode::Replay(list) => Choices::replay(list),
         Mode::Prefix(list, seed) => Choices::replay_then_search(list, seed),
     };
+    if matches!(family, Family::C02 | Family::C10) {
+        // codec-level simulation: no runtime, the decoder under a simulated transport
+        let res = panic::catch_unwind(AssertUnwindSafe(|| crate::codecsim::run(family, ch)));
+        return match res {
+            Ok(out) => out,
+            Err(_) => {
+                let msg = PANIC_MSG.with(|p| p.borrow_mut().take()).unwrap_or_else(|| "<panic>".into());
+                let mut ch2 = Choices::search(0);
+                RunOut {
+                    plan: crate::families::base_plan(if family == Family::C02 { "C02" } else { "C10" }, Role::S5, &mut ch2),
+                    hist: Vec::new(),
+                    stats: crate::world::Stats::default(),
+                    choices: crate::codecsim::take_log(),
+                    clamped: 0,
+                    panic: Some(msg),
+                    budget_hit: false,
+                    conn_done: Vec::new(),
+                    gates: Vec::new(),
+                    senders: Vec::new(),
+                    peers: Vec::new(),
+                    setup_error: None,
+                    digest: 0,
+                    signature: 0,
+                    runnable_left: 0,
+                    armed_left: 0,
+                    pre_violations: Vec::new(),
+                }
+            }
+        };
+    }
     let w = World::new(ch);
     let plan = {
         let mut ch = w.ch.borrow_mut();
@@ -243,6 +275,7 @@ fn run_in_thread(family: Family, mode: Mode) -> RunOut {
         signature: sig.0,
         runnable_left,
         armed_left,
+        pre_violations: Vec::new(),
     };
     drop(st);
     if out.panic.is_some() {
@@ -282,7 +315,8 @@ pub fn run_one(family: Family, mode: Mode) -> RunOut {
         .stack_size(2 * 1024 * 1024)
         .spawn(move || {
             let out = run_in_thread(family, mode);
-            let panicked = out.panic.is_some();
+            // (codec-level runs unwind cleanly: nothing torn is left behind on the thread)
+            let panicked = out.panic.is_some() && !matches!(family, Family::C02 | Family::C10);
             let _ = tx.send(out);
             if panicked {
                 loop {
